@@ -1,31 +1,32 @@
 #!/bin/bash
-# Small plain mutants (seeded/S-<property>-<id>/: patch.diff + meta.txt, written by sub-agents in
-# mutation-testing style). For each: the patch applies to /repo HEAD, the repository's own suite
+# Small plain mutants (seeded/S-<property>-<id>/ and seeded/S3-<property>-<id>/: patch.diff + meta.txt, written by sub-agents in
+# mutation-testing style). For each: the patch applies to $REPO HEAD, the repository's own suite
 # passes with it (scratch worktree), and the property's quick check is run against it (patch
-# applied to /repo, reverted straight afterwards). Writes verify.txt. Usage: verify_small.sh [filter]
+# applied to $REPO, reverted straight afterwards). Writes verify.txt. Usage: verify_small.sh [filter]
 set -u
+REPO="${REPO:-/repo}"; VERIF="${VERIF:-/verif}"; export VERIF_REPO="$REPO"
 filter="${1:-}"
-W=/tmp/seed-verify
-cd /repo || exit 2
+W=/tmp/seed-verify-$$
+cd $REPO || exit 2
 git worktree remove --force $W 2>/dev/null; git worktree prune
 git worktree add -q --detach $W HEAD || exit 2
-for d in /verif/seeded/S-*/; do
+for d in $VERIF/seeded/S*-C*/; do
   id=$(basename "$d")
   case "$id" in *"$filter"*) ;; *) continue;; esac
   prop=$(echo "$id" | cut -d- -f2)
   out="$d/verify.txt"; : > "$out"
   cd $W && git checkout -q -- . && git clean -qfd src parser macros tests docs 2>/dev/null
   if ! git apply "$d/patch.diff" 2>>"$out"; then echo "$id: PATCH DOES NOT APPLY" | tee -a "$out"; continue; fi
-  if cargo test --workspace --no-fail-fast --offline >/tmp/sv.log 2>&1; then suite="suite passes with patch"; else suite="SUITE FAILS WITH PATCH"; fi
+  if cargo test --workspace --no-fail-fast --offline >/tmp/sv$$.log 2>&1; then suite="suite passes with patch"; else suite="SUITE FAILS WITH PATCH"; fi
   git checkout -q -- . ; git clean -qfd src parser macros tests docs 2>/dev/null
-  cd /verif
-  if git -C /repo diff --quiet && git -C /repo apply "$d/patch.diff"; then
-    VERIF_OUT=/tmp/verif-seeded-out ./check "$prop" quick >/tmp/sv-check.log 2>&1; rc=$?
-    git -C /repo checkout -- . ; git -C /repo clean -fdq -- src parser macros tests docs
-    echo "$id: $suite; ./check $prop quick -> exit $rc :: $(grep -m1 'class=' /tmp/sv-check.log | cut -c1-260)" | tee -a "$out"
+  cd $VERIF
+  if git -C $REPO diff --quiet && git -C $REPO apply "$d/patch.diff"; then
+    VERIF_OUT=/tmp/verif-seeded-out$$ ./check "$prop" quick >/tmp/sv$$-check.log 2>&1; rc=$?
+    git -C $REPO checkout -- . ; git -C $REPO clean -fdq -- src parser macros tests docs
+    echo "$id: $suite; ./check $prop quick -> exit $rc :: $(grep -m1 'class=' /tmp/sv$$-check.log | cut -c1-260)" | tee -a "$out"
   else
-    echo "$id: could not apply to /repo (dirty?)" | tee -a "$out"
+    echo "$id: could not apply to $REPO (dirty?)" | tee -a "$out"
   fi
 done
-cd /repo && git worktree remove --force $W; git worktree prune
-rm -rf /tmp/verif-seeded-out /tmp/sv.log
+cd $REPO && git worktree remove --force $W; git worktree prune
+rm -rf /tmp/verif-seeded-out$$ /tmp/sv$$.log
